@@ -519,6 +519,7 @@ class UserTrackingManager:
 
         self._tracked_users: dict[str, TrackedUser] = dict()
         self._sends_in_progress: int = 0
+        self._reset_count: int = 0
 
         self.register_listeners()
 
@@ -643,10 +644,19 @@ class UserTrackingManager:
 
         username = tracked_user.user.name
         try:
+            reset_count = self._reset_count
             self._sends_in_progress += 1
             await self._network.send_server_messages(AddUser.Request(username))
 
         except Exception:
+            if self._reset_count != reset_count:
+                # The failed write closed the server connection and the listener
+                # for the closed connection, running inside that write, has
+                # cancelled all tracking tasks. The task that waits for the
+                # write receives the error of the write in place of its
+                # cancellation: raise the cancellation
+                raise asyncio.CancelledError()
+
             return RETRY_TIMEOUT_NET_ERROR, "failed to send tracking message", None
 
         finally:
@@ -673,10 +683,15 @@ class UserTrackingManager:
     async def _request_untracking(self, tracked_user: TrackedUser):
         username = tracked_user.user.name
         try:
+            reset_count = self._reset_count
             self._sends_in_progress += 1
             await self._network.send_server_messages(RemoveUser.Request(username))
 
         except Exception as exc:
+            if self._reset_count != reset_count:
+                # Cancelled by the reset, see `_request_tracking`
+                raise asyncio.CancelledError()
+
             logger.debug(
                 "failed to send untracking request for user %s : %r",
                 username, exc
@@ -756,6 +771,7 @@ class UserTrackingManager:
             return
 
         if event.state == ConnectionState.CLOSED:
+            self._reset_count += 1
             tasks = self.stop()
             # A failed write of a tracking task closes the connection and runs
             # this listener inside that write: waiting for the cancelled tasks
